@@ -77,6 +77,33 @@ example : Inv ctxW gR ∧ AliasUnique gR ∧ (step ctxW gR (.removeNode 0)).2 = 
 example : (step ctxW gR (.removeNode 6)).2 = .ok .unit ∧ (step ctxW gR (.removeNode 6)).1.nodeIds = [0, 1, 2, 3] := by
   decide
 
+-- the specification itself, evaluated on the surviving items of the example state: removing the
+-- instantiation 0 removes its alias 2, frees the export name `x` and leaves the argument `a` of
+-- instantiation 1 unsatisfied again
+example : (specStep ctxW gR.fresh (abs gR) (.removeNode 0)).1.nodeIds = [1, 3, 4, 5, 6] ∧
+    (specStep ctxW gR.fresh (abs gR) (.removeNode 0)).1.exports ['x'] = none ∧
+    (abs gR).exports ['x'] = some 2 ∧ (abs gR).arg 1 0 = some 2 ∧
+    (specStep ctxW gR.fresh (abs gR) (.removeNode 0)).1.arg 1 0 = none ∧
+    (specStep ctxW gR.fresh (abs gR) (.removeNode 0)).1.importsQuery =
+      [(['a'], 0, none), (['i'], 0, some 3)] := by decide
+
+/-- a state that satisfies `Inv` but has two alias nodes for one export (not reachable:
+    `aliasUnique_step`) -/
+def gTwoAliases : Graph :=
+  { (run ctxW {} [.register pkgW, .instantiate ⟨0, 0⟩, .alias 0 ['a']]).1 with
+    nodes := [some ⟨.instantiation [], some ⟨0, 0⟩, 1, none, none⟩, some ⟨.alias, some ⟨0, 0⟩, 0, none, none⟩,
+              some ⟨.alias, some ⟨0, 0⟩, 0, none, none⟩]
+    edges := [⟨0, 2, .alias 0⟩, ⟨0, 1, .alias 0⟩] }
+
+/-- why `abs_step` has the hypothesis `AliasUnique g` besides `Inv ctx g`: `Inv` (written from
+    the anchors of the property) does not exclude two alias nodes for one export; in such a
+    state — which no history reaches — `alias_instance_export` answers with the newest alias in
+    adjacency order, which the surviving items do not determine -/
+theorem inv_alone_insufficient :
+    Inv ctxW gTwoAliases ∧ ¬ AliasUnique gTwoAliases ∧
+    (step ctxW gTwoAliases (.alias 0 ['a'])).2 = .ok (.node 2) ∧
+    (specStep ctxW gTwoAliases.fresh (abs gTwoAliases) (.alias 0 ['a'])).2 = .ok (.node 1) := by decide
+
 /-- the identifiers the allocators choose are vacant in the abstract state -/
 theorem fresh_vacant (ctx : Ctx) (g : Graph) (h : Inv ctx g) :
     (abs g).node g.fresh.node = none ∧ (abs g).pkg g.fresh.pkg = none :=
@@ -112,15 +139,10 @@ theorem aliasUnique_step (ctx : Ctx) (g g' : Graph) (op : Op) (out : Outcome)
 /-! ### over all histories -/
 
 /-- the empty graph abstracts to the empty abstract state -/
-theorem abs_init : ∀ (P : Abs → Prop), P Abs.empty → P (abs {}) := by
-  intro P hP
-  have : abs {} = Abs.empty := by
-    refine Abs.ext' rfl ?_ rfl rfl rfl rfl rfl rfl ?_ rfl
-    · funext n; simp [abs, Abs.empty, Graph.node?]
-    · funext id; simp [abs, Abs.empty, Graph.pkgOf, Except.toOption]
-  rw [this]; exact hP
-
-theorem abs_empty : abs {} = Abs.empty := abs_init (fun a => a = Abs.empty) rfl
+theorem abs_empty : abs {} = Abs.empty := by
+  refine Abs.ext' rfl ?_ rfl rfl rfl rfl rfl rfl ?_ rfl
+  · funext n; simp [abs, Abs.empty, Graph.node?]
+  · funext id; simp [abs, Abs.empty, Graph.pkgOf, Except.toOption]
 
 /-- C06 refinement over histories: from any consistent state, a history that does not panic is,
     on the surviving items, the run of the specification (with the model's allocator choices),
